@@ -12,7 +12,7 @@ type Re struct {
 	Kind  string // "lit", "any", "class", "cat", "alt", "star", "plus", "opt", "empty"
 	Lit   byte
 	Neg   bool
-	Set   []byte  // class members (single bytes)
+	Set   []byte    // class members (single bytes)
 	Rngs  [][2]byte // class ranges
 	Subs  []*Re
 	RawHi bool // render a byte >127 raw instead of as \xNN
@@ -113,6 +113,19 @@ func (r *Re) Match(s string) bool {
 	return r.m(s, 0, func(i int) bool { return i == len(s) }, 0)
 }
 
+// matchByte: does this single-byte node (lit / any / class) accept b?
+func (r *Re) matchByte(b byte) bool {
+	switch r.Kind {
+	case "lit":
+		return b == r.Lit
+	case "any":
+		return b != '\n'
+	case "class":
+		return r.classHas(b)
+	}
+	return false
+}
+
 func (r *Re) classHas(b byte) bool {
 	in := false
 	for _, x := range r.Set {
@@ -161,6 +174,19 @@ func (r *Re) m(s string, i int, k func(int) bool, depth int) bool {
 	case "opt":
 		return r.Subs[0].m(s, i, k, depth+1) || k(i)
 	case "star":
+		if sub := r.Subs[0]; sub.Kind == "lit" || sub.Kind == "any" || sub.Kind == "class" {
+			// single-byte operand: find the longest run iteratively (inputs can be tens of kilobytes), then back off
+			n := 0
+			for i+n < len(s) && sub.matchByte(s[i+n]) {
+				n++
+			}
+			for j := n; j >= 0; j-- {
+				if k(i + j) {
+					return true
+				}
+			}
+			return false
+		}
 		var loop func(pos int, d int) bool
 		loop = func(pos int, d int) bool {
 			if d > 4000 {
